@@ -13,6 +13,10 @@ With two queues at sibling keys (K and K + '.' + text, K + '_' + text, ...) in t
 after EVERY operation on either of them (keys `sibling-memory-mismatch`, `sibling-durable-mismatch`): an operation on K
 must not touch what is stored for its sibling.  Sibling keys that sort inside K's hidden ordinal range (`K.<32 hex>...`,
 `K.b`) are C24's recorded key-encoding weakness and are kept out of this check (asserted on the PAIRS table).
+Refused operations: extend/update with a batch holding an element that is no registered dataclass (None, int, str at
+any position) or with a one-shot iterable.  The model does not apply an operation that raised: memory and the durable copy
+must be what they were (`rejected-op-changed-content:<Cls>.<op>`); a call that returned must have applied nothing or the
+whole batch of acceptable values, the same in memory and on disk.
 At a reopen point the Subery is closed, every in-memory object is dropped, the same directory is
 opened again (new Subery instance, or `.reopen()` of the same one), a new Hold and a new EMPTY
 Durq/Dusq are created at the same key; after the injection sync the content must equal the model.
@@ -42,6 +46,11 @@ RULE = ("operation histories over {push v, pull, extend/update [..], remove v (D
         "registered-dataclass domain {Bag(0), Bag(1), IceBag(0), IceBag(1)} (equal field values in two classes, duplicates "
         "inside extend/update lists). Every history of length <= 3 (quick) / <= 4 (thorough) over a 9-op (Durq) / 10-op (Dusq) "
         "alphabet is run once per reopen position (after op 1..len), so a close/reopen is tried between every two operations; "
+        "a fixed schedule of refused batches (class x 13 batches: None / int / str at the first, a middle and the last position of "
+        "an extend/update list or tuple, one-shot generators and iterators with and without such an element, x empty / non-empty "
+        "queue, each also through the constructor) run without a reopen and with a reopen after every position - a call that "
+        "raised must leave memory and the durable copy as they were, a call that returned must have applied nothing or the "
+        "complete batch; "
         "a fixed schedule of two-queue scripts (class x 10 sibling key pairs K/S in ONE sub-database - plain prefixes, "
         "S = K+'.'+text, nested dots, tuple forms - x injection order x 6 triggers that make hio delete all values at K: clear, "
         "pin, forced sync, pull to empty, clear+inject a preloaded queue, clear+extend+clear) is run without a reopen and with a "
